@@ -37,7 +37,7 @@ def make_tree(root, spec=INITIAL_TREE):
 
 
 class FsExecutor(object):
-    def __init__(self, npreopen=1, stdin_data=b'standard input bytes\n', pages=64):
+    def __init__(self, npreopen=1, stdin_data=b'standard input bytes\n', pages=64, variant='default'):
         self.base = cexec.new_dir('w')
         # same path length on both sides (path-length limits hit both alike); separate parents, so that '..' escapes stay apart
         os.makedirs(os.path.join(self.base, 'A', 'up'))
@@ -56,19 +56,22 @@ class FsExecutor(object):
         self.out_expect = {1: b'', 2: b''}
         open(self.stdout_path, 'wb').close()
         open(self.stderr_path, 'wb').close()
-        self.agent = Agent(self.base, self.stdin_path, self.stdout_path, self.stderr_path, pages=pages, cwd=self.base)
+        self.agent = Agent(self.base, self.stdin_path, self.stdout_path, self.stderr_path, pages=pages, cwd=self.base, variant=variant)
         self.agent.init([b'prog'], [])
         self.fds = {}          # wasi fd -> dict(kind, rel, mfd, closed, append, pre)
         self.preopens = []
-        self.history = []
+        self.history = [['agent_variant', variant]]
         self.flags = set()
+        if variant != 'default':
+            self.flags.add('agent_' + variant)
         for i in range(npreopen):
             rel = '' if i == 0 else ('dir1' if i == 1 else 'dir2')
             path = os.path.join(self.real, rel) if rel else self.real
             ok, fd = self.agent.preopen(path)
             if not ok:
                 raise Violation('preopen-failed', 'wasiFileDescriptorAdd failed for %s' % path)
-            self.fds[fd] = {'kind': 'dir', 'rel': rel, 'mfd': None, 'closed': False, 'append': False, 'pre': True, 'path': path}
+            self.fds[fd] = {'kind': 'dir', 'rel': rel, 'mfd': None, 'closed': False, 'append': False, 'pre': True, 'path': path,
+                            'wpath': path.encode()}
             self.preopens.append(fd)
         self.next_fd = 3 + npreopen
         self.last_positional = {}
@@ -204,7 +207,7 @@ class FsExecutor(object):
         is_chr = stat.S_ISCHR(st.st_mode)
         rel = os.path.normpath(os.path.join(self.fds[dirfd]['rel'], name)) if not name.startswith('/') else os.path.relpath(name, self.real)
         self.fds[fd] = {'kind': kind, 'rel': '' if rel == '.' else rel, 'mfd': mfd, 'closed': False, 'append': append, 'pre': False,
-                        'path': self.rpath(dirfd, name), 'chr': is_chr}
+                        'path': self.rpath(dirfd, name), 'chr': is_chr, 'wpath': self.wjoin(dirfd, name.encode('utf-8', 'surrogateescape'))}
         try:
             self.fds[fd]['ino'] = os.stat(self.rpath(dirfd, name)).st_ino
         except OSError:
@@ -415,6 +418,8 @@ class FsExecutor(object):
             st = os.stat(d['path'])
         except OSError as e:
             return
+        if d.get('ino') is not None and st.st_ino != d['ino']:
+            return      # the name now denotes another object than the one the descriptor was opened on (removed / replaced since)
         if r != 0:
             self.fail('filestat', 'fd_filestat_get(%d) failed with %s' % (fd, ename(r)))
         self.compare_stat('fd_filestat_get', st, unstable)
@@ -506,10 +511,20 @@ class FsExecutor(object):
     # ---- C14: path operations
     PATH_MAX = 4096
 
+    def wjoin(self, dirfd, nb):
+        """the host path w2c2 forms for a guest path: an absolute one as is, otherwise the descriptor's own (never normalised) path,
+        a separator unless that path ends in one, and the guest path; a directory opened through it is remembered under this string"""
+        if nb[:1] == b'/':
+            return nb
+        w = self.fds[dirfd].get('wpath') or self.fds[dirfd]['path'].encode()
+        return w + (b'' if w.endswith(b'/') else b'/') + nb
+
     def _joined_len(self, dirfd, nb):
         if nb[:1] == b'/':
             return len(nb)
-        return len(self.fds[dirfd]['path'].encode()) + 1 + len(nb)
+        # length as the length check of the implementation sees it: descriptor path + separator + guest path
+        w = self.fds[dirfd].get('wpath') or self.fds[dirfd]['path'].encode()
+        return len(w) + 1 + len(nb)
 
     def path_op(self, op, dirfd, name, name2=None, dirfd2=None, bufsize=64, unstable=False):
         """op in create_directory, remove_directory, unlink_file, rename, symlink, readlink, filestat_get.
@@ -792,11 +807,14 @@ class FsExecutor(object):
 
 def replay_history(history, npreopen=1, extra=None):
     """re-execute a recorded history without Hypothesis; returns None or (sig, message)"""
-    ex = FsExecutor(npreopen=npreopen)
+    variant = ([st[1] for st in history if st and st[0] == 'agent_variant'] or ['default'])[0]
+    ex = FsExecutor(npreopen=npreopen, variant=variant)
     try:
         try:
             for step in history:
                 op, args = step[0], step[1:]
+                if op == 'agent_variant':
+                    continue
                 if op in ('fd_write', 'fd_pwrite'):
                     args = [args[0], [bytes.fromhex(h) for h in args[1]]] + list(args[2:])
                 args = [bytes.fromhex(x['hex']) if isinstance(x, dict) and 'hex' in x else x for x in args]
